@@ -27,9 +27,9 @@
      C18_change_frame_id_any_type --changeFrameId finds the frame by its identifier number whatever its type (was
                                   ArbitrationId(int(old)) = an 11-bit identifier: ArbitrationIdOutOfRange above 0x7FF,
                                   29-bit frames never found);
-     C18_delete_cycle_time_attr   --deleteFrameAttributes GenMsgCycleTime also clears Frame.cycle_time (the exporters
-                                  recreate the attribute from it).
-   The code without the first and third patch is kept as parse_ecus_unfixed / change_frame_id_unfixed (props/C18.v:
+   (fixes/C18_delete_cycle_time_attr.patch was NOT applied to /repo: --deleteFrameAttributes is del_frame_attributes and nothing
+   else; that GenMsgCycleTime comes back through Frame.cycle_time is recorded as known finding opt-deleteFrameAttributes-effect.)
+   The code before C18_ecus_1_direction_reset / C18_change_frame_id_any_type is kept as parse_ecus_unfixed / change_frame_id_unfixed (props/C18.v:
    ..._refuted / ..._partial).
 
    Outside the model: file I/O (loadp/dumpp, the file named by --merge), click, logging; int() accepting surrounding
@@ -517,7 +517,6 @@ Record ops (M : Type) := mkOps {
   o_delete_zero_signals : M -> M;
   o_del_signal_attributes : list str -> M -> M;
   o_del_frame_attributes : list str -> M -> M;
-  o_clear_cycle_time : M -> M;                                    (* for frame in db.frames: frame.cycle_time = 0 *)
   o_delete_obsolete_defines : M -> M;
   o_delete_obsolete_ecus : M -> M;
   o_compress_frames : str -> M -> option M;                       (* one pattern; None: compress does not return *)
@@ -530,7 +529,7 @@ Arguments o_rename_frame {M}. Arguments o_del_frame {M}. Arguments o_add_frame_r
 Arguments o_frame_id_increment {M}. Arguments o_change_frame_id {M}. Arguments o_set_frame_fd {M}.
 Arguments o_unset_frame_fd {M}. Arguments o_skip_long_dlc {M}. Arguments o_cut_long_frames {M}.
 Arguments o_rename_signal {M}. Arguments o_del_signal {M}. Arguments o_delete_zero_signals {M}.
-Arguments o_del_signal_attributes {M}. Arguments o_del_frame_attributes {M}. Arguments o_clear_cycle_time {M}.
+Arguments o_del_signal_attributes {M}. Arguments o_del_frame_attributes {M}.
 Arguments o_delete_obsolete_defines {M}. Arguments o_delete_obsolete_ecus {M}. Arguments o_compress_frames {M}.
 Arguments o_recalc_dlc {M}. Arguments o_pdu {M}.
 
@@ -539,8 +538,6 @@ Definition obind {A B} (x : option A) (f : A -> option B) : option B := match x 
 Definition fold_opt {A M} (f : A -> M -> option M) (items : list A) (m : M) : option M :=
   fold_left (fun acc it => obind acc (f it)) items (Some m).
 Definition fold_tot {A M} (f : A -> M -> M) (items : list A) (m : M) : M := fold_left (fun acc it => f it acc) items m.
-
-Definition s_GenMsgCycleTime : str := [71; 101; 110; 77; 115; 103; 67; 121; 99; 108; 101; 84; 105; 109; 101].
 
 (* one `if` block of convert() after the selection: option k with raw argument a *)
 Definition stage {M} (O : ops M) (k : okind) (a : str) (m : M) : option M :=
@@ -561,9 +558,7 @@ Definition stage {M} (O : ops M) (k : okind) (a : str) (m : M) : option M :=
   | KDeleteSignal => Some (fold_tot (o_del_signal O) (parse_list a) m)
   | KDeleteZeroSignals => Some (o_delete_zero_signals O m)
   | KDeleteSignalAttributes => Some (o_del_signal_attributes O (parse_list a) m)
-  | KDeleteFrameAttributes =>
-      let m1 := o_del_frame_attributes O (parse_list a) m in
-      Some (if existsb (name_eqb s_GenMsgCycleTime) (parse_list a) then o_clear_cycle_time O m1 else m1)
+  | KDeleteFrameAttributes => Some (o_del_frame_attributes O (parse_list a) m)
   | KDeleteObsoleteDefines => Some (o_delete_obsolete_defines O m)
   | KDeleteObsoleteEcus => Some (o_delete_obsolete_ecus O m)
   | KCompressFrame => fold_opt (o_compress_frames O) (parse_list a) m
@@ -640,7 +635,6 @@ Record foreign (M : Type) := mkForeign {
   x_delete_zero_signals : M -> M;
   x_del_signal_attributes : list str -> M -> M;
   x_del_frame_attributes : list str -> M -> M;
-  x_clear_cycle_time : M -> M;
   x_delete_obsolete_defines : M -> M;
   x_delete_obsolete_ecus : M -> M;
   x_compress_frames : str -> M -> option M
@@ -651,14 +645,14 @@ Definition cops (X : foreign cmatrix) : ops cmatrix :=
     (x_rename_ecu _ X) (x_del_ecu _ X) (x_rename_frame _ X) (x_del_frame _ X)
     add_frame_receiver frame_id_increment change_frame_id set_frame_fd unset_frame_fd skip_long_dlc cut_long_frames
     (x_rename_signal _ X) (x_del_signal _ X) (x_delete_zero_signals _ X) (x_del_signal_attributes _ X)
-    (x_del_frame_attributes _ X) (x_clear_cycle_time _ X) (x_delete_obsolete_defines _ X) (x_delete_obsolete_ecus _ X)
+    (x_del_frame_attributes _ X) (x_delete_obsolete_defines _ X) (x_delete_obsolete_ecus _ X)
     (x_compress_frames _ X) recalc_dlc_c pdu_stage.
 (* foreign operations that do nothing: what the executable entry point (Run_C18.v) uses - the correspondence runs give
    only directly modelled options *)
 Definition inert : foreign cmatrix :=
   mkForeign cmatrix (mkCMatrix [] 0) (fun _ _ _ _ t => t) (fun _ _ t => t) (fun _ _ t => Some t) (fun _ _ t => t) (fun _ m => Some m)
     (fun _ _ m => m) (fun _ m => m) (fun _ _ m => Some m) (fun _ m => m) (fun _ _ m => Some m) (fun _ m => m)
-    (fun m => m) (fun _ m => m) (fun _ m => m) (fun m => m) (fun m => m) (fun m => m) (fun _ m => Some m).
+    (fun m => m) (fun _ m => m) (fun _ m => m) (fun m => m) (fun m => m) (fun _ m => Some m).
 
 (* ============================================================================================================ *)
 (* vocabulary of the statements                                                                                  *)
